@@ -183,6 +183,89 @@ func c01Templates(r *Rand) []c01Case {
 	multi("import-diamond-cycle", map[string]string{
 		"main.sysl": "import b\nimport c\nA:\n    Ep:\n        ...\n", "b.sysl": "import d\nB:\n    Ep:\n        ...\n",
 		"c.sysl": "import d\nimport main\nC:\n    Ep:\n        ...\n", "d.sysl": "import b\nD:\n    Ep:\n        ...\n"})
+	// import closures that are deep or wide: every file is valid, the closure must still end
+	app := func(i int) string { return fmt.Sprintf("F%d:\n    Ep:\n        ...\n", i) }
+	for _, n := range []int{9, 10, 12, 25, 60} {
+		files := map[string]string{}
+		for i := 0; i < n; i++ {
+			name := fmt.Sprintf("f%d.sysl", i)
+			if i == 0 {
+				name = "main.sysl"
+			}
+			imp := ""
+			if i+1 < n {
+				imp = fmt.Sprintf("import f%d\n", i+1)
+			}
+			files[name] = imp + app(i)
+		}
+		multi(fmt.Sprintf("import-chain-%d", n), files)
+	}
+	for _, n := range []int{7, 8, 9, 16, 30} {
+		// a fan: n imports, each with a private import of its own (and one leaf they all share)
+		files := map[string]string{"shared.sysl": leafApp}
+		var root strings.Builder
+		for i := 0; i < n; i++ {
+			fmt.Fprintf(&root, "import m%d\n", i)
+			files[fmt.Sprintf("m%d.sysl", i)] = fmt.Sprintf("import l%d\nimport shared\n", i) + app(i)
+			files[fmt.Sprintf("l%d.sysl", i)] = app(100 + i)
+		}
+		files["main.sysl"] = root.String() + "Root:\n    Ep:\n        ...\n"
+		multi(fmt.Sprintf("import-fan-%d", n), files)
+	}
+	{
+		// a tree of depth 4 and fan-out 3 whose leaves import the root again
+		files := map[string]string{}
+		var build func(name string, depth int)
+		id := 0
+		build = func(name string, depth int) {
+			id++
+			my := id
+			var b strings.Builder
+			if depth < 4 {
+				for k := 0; k < 3; k++ {
+					child := fmt.Sprintf("t%d_%d", my, k)
+					fmt.Fprintf(&b, "import %s\n", child)
+					build(child+".sysl", depth+1)
+				}
+			} else {
+				b.WriteString("import main\n")
+			}
+			files[name] = b.String() + app(my)
+		}
+		build("main.sysl", 0)
+		multi("import-tree-3x4", files)
+	}
+	// foreign files in the closure that the converters cannot digest (some make the converter itself fail)
+	foreign := func(kind, ext, mode, content string) {
+		for depth := 1; depth <= 2; depth++ {
+			files := map[string]string{"dep" + ext: content}
+			imp := fmt.Sprintf("import dep%s as Dep :: Api %s\n", ext, mode)
+			if depth == 1 {
+				files["main.sysl"] = imp + "App:\n    Ep:\n        Dep :: Api <- GET /a\n"
+			} else {
+				files["main.sysl"] = "import mid\nApp:\n    Ep:\n        ...\n"
+				files["mid.sysl"] = imp + "Mid:\n    Ep:\n        ...\n"
+			}
+			multi(fmt.Sprintf("import-foreign-%s-depth%d", kind, depth), files)
+		}
+	}
+	foreign("swagger-null-parameter", ".yaml", "~swagger", "swagger: '2.0'\npaths:\n  /a:\n    get:\n      parameters:\n        - null\n")
+	foreign("swagger-null-path", ".yaml", "~swagger", "swagger: '2.0'\npaths:\n  /a: null\n")
+	foreign("swagger-null-operation", ".yaml", "~swagger", "swagger: '2.0'\npaths:\n  /a:\n    get: null\n")
+	foreign("swagger-null-response", ".yaml", "~swagger", "swagger: '2.0'\npaths:\n  /a:\n    get:\n      responses:\n        200: null\n")
+	foreign("swagger-null-definition", ".yaml", "~swagger", "swagger: '2.0'\npaths: {}\ndefinitions:\n  T: null\n")
+	foreign("swagger-null-property", ".yaml", "~swagger", "swagger: '2.0'\npaths: {}\ndefinitions:\n  T:\n    type: object\n    properties:\n      x: null\n")
+	foreign("swagger-bad-ref", ".yaml", "~swagger", "swagger: '2.0'\npaths: {}\ndefinitions:\n  T:\n    $ref: '#/definitions/Missing'\n")
+	foreign("swagger-empty", ".yaml", "~swagger", "")
+	foreign("swagger-scalar", ".yaml", "~swagger", "42\n")
+	foreign("swagger-not-yaml", ".yaml", "~swagger", "{[}\n")
+	foreign("openapi3-null-parameter", ".yaml", "~openapi3", "openapi: 3.0.0\ninfo: {title: t, version: '1'}\npaths:\n  /a:\n    get:\n      parameters:\n        - null\n      responses: {}\n")
+	foreign("openapi3-null-schema", ".yaml", "~openapi3", "openapi: 3.0.0\ninfo: {title: t, version: '1'}\npaths: {}\ncomponents:\n  schemas:\n    T: null\n")
+	foreign("openapi3-empty", ".yaml", "~openapi3", "")
+	foreign("xsd-garbage", ".xsd", "~xsd", "<xs:schema xmlns:xs=\"http://www.w3.org/2001/XMLSchema\"><xs:complexType></xs:schema>")
+	foreign("xsd-empty", ".xsd", "~xsd", "")
+	foreign("json-garbage", ".json", "~swagger", "{\"swagger\": \"2.0\", \"paths\": {\"/a\": {\"get\": {\"parameters\": [null]}}}}")
+	foreign("no-mode", ".yaml", "", "swagger: '2.0'\npaths:\n  /a:\n    get:\n      parameters:\n        - null\n")
 	_ = r
 	return out
 }
